@@ -205,3 +205,12 @@ Example semver_examples :
   (option_map (fun v => (sv_major v, sv_minor v, sv_patch v)) (parse_semver (s "2.1")) = Some (2, 1, 0)) /\
   parse_semver (s "01.0.0") = None /\ parse_semver (s "1.0.0-") = None.
 Proof. vm_compute. auto. Qed.
+
+(* unparseable operands never satisfy a semVer operator (grammar: SemverSpec.is_semver) *)
+From LD Require Import SemverSpec.
+Lemma semver_unparseable_never_matches c x i expected :
+  (forall v, ~ is_semver x v) -> semver_op c (JStr x) i expected = false.
+Proof.
+  intros H. unfold semver_op. destruct (clause_semver c i); [|reflexivity].
+  simpl. destruct (parse_semver x) as [v|] eqn:E; [|reflexivity]. exfalso. exact (H v (accepted_is_semver x v E)).
+Qed.
